@@ -183,6 +183,12 @@ class World:
 
     # ---- python value -> spec value
     def pconv(self, i, v):
+        try:
+            return self._pconv(i, v)
+        except Exception as e:      # a value of a kind the declaration does not allow (only a corrupted instance can hold one)
+            return ["UNEXPECTED", type(v).__name__, type(e).__name__]
+
+    def _pconv(self, i, v):
         if v is None:
             return NONE
         t = i["type"]
